@@ -55,9 +55,16 @@ class Ctx:
 
     def cleanup(self):
         shutil.rmtree(self.scratch, ignore_errors=True)
+        # TLC leaves /tmp/tlc-* behind; other checks may be running concurrently, so
+        # only remove the ones that are clearly stale
         for d in os.listdir("/tmp"):
             if d.startswith("tlc-"):
-                shutil.rmtree(os.path.join("/tmp", d), ignore_errors=True)
+                p = os.path.join("/tmp", d)
+                try:
+                    if time.time() - os.path.getmtime(p) > 3600:
+                        shutil.rmtree(p, ignore_errors=True)
+                except OSError:
+                    pass
 
     # ------------------------------------------------------------------ TLC
     def tlc(self, module, cfg, workers=None, simulate=None, depth=None, timeout=900,
